@@ -32,7 +32,7 @@ def nosupport(flags):
     return [] if flags & 8 else ["env HWLOC_XML_EXPORT_SUPPORT 0"]
 
 
-def matrix(ctx, rng, tag, flags, thorough, k, ncomb=3, first=None):
+def matrix(ctx, rng, tag, flags, thorough, k, ncomb=3, first=None, rootgp=1):
     """the export/import steps for slot 0 -> slot 1; first = (export mode, format) of the first export when it matters"""
     combos = [(me, mi, v2, ud) for me in ("buffer", "file") for mi in ("buffer", "file") for v2 in (0, 2) for ud in (0, 1)]
     picks = combos if thorough else rng.sample(combos, ncomb) + [("buffer", "buffer", 0, 1)]
@@ -45,6 +45,8 @@ def matrix(ctx, rng, tag, flags, thorough, k, ncomb=3, first=None):
         lines.append("xml_import 1 %s %s %d %d 1" % (mi, p1, flags, ud))
         if not v2:
             lines.append("xml_export 1 %s %s.again %d %d" % (me, p1, 0, ud))      # fixpoint: same bytes again
+        # what was imported is a topology like any other: a modifying call on it keeps it well formed (e.g. the new object's gp_index is new)
+        lines.append("insert_misc 1 %d postimport%d" % (rootgp, j))
         lines.append("destroy 1")
     return lines
 
@@ -116,7 +118,7 @@ def run(ctx, replay=None):
             cfg = rng.choice([["filter 0 19 0"], ["filter 0 -1 0"], ["filter 0 -1 2", "filter 0 19 0"], []])
             # lazy store observation for every other behaviour: the recorder does not query (and thereby refresh) the stores before the first export
             lines = (["reset 2", "option stores %d" % (2 if (k % 2 == 0 or first) else 1)] + nosupport(flags) + ["init 0", c02.source_line(ctx, name, desc)] + c02.FAM_EXTRA.get(name, []) + cfg + ["flags 0 %d" % flags, "load 0"]
-                     + special(c02.render(h, info[name], choices), rng) + matrix(ctx, rng, name, flags, thorough, k, first=first))
+                     + special(c02.render(h, info[name], choices), rng) + matrix(ctx, rng, name, flags, thorough, k, first=first, rootgp=info[name]["gps"][0][0]))
             k += 1
             behs.append("\n".join(lines) + "\n")
     # (1b) userdata whose content has XML-special characters, in dedicated behaviours (known finding with the nolibxml backend)
